@@ -185,13 +185,17 @@ func (l *Location) ShouldModifyQuery() bool {
 
 // AddQuery add query to request
 func (l *Location) AddQuery(req *http.Request) {
-	query := req.URL.Query()
-	for key, values := range l.Query {
-		for _, value := range values {
-			query.Add(key, value)
-		}
+	// 直接在原有的query后添加，不重新生成，
+	// 避免原有query中无法解析的参数被丢弃或参数顺序被调整
+	added := l.Query.Encode()
+	if added == "" {
+		return
 	}
-	req.URL.RawQuery = query.Encode()
+	if req.URL.RawQuery == "" {
+		req.URL.RawQuery = added
+		return
+	}
+	req.URL.RawQuery += "&" + added
 }
 
 func (l *Location) getPriority() int {
